@@ -8,9 +8,9 @@ from rig import Infra
 META = {
     "title": "Constant arithmetic",
     "engine": "Const",
-    "technique": "TLA+ reference of the Go specification's constant rules (exact BigInt / dyadic-rational arithmetic, representability, conversions, shifts) evaluated by TLC; TLC exports every depth-1 expression tree over a boundary literal set (plus seeded depth-2 trees) with the reference verdict, reference literal and Go source; the driver splices them into programs built and run by the real scriggo; a TLC Trace spec recomputes the reference and judges. The int64 fast path of constant.go is transcribed branch by branch and model-checked against the reference for all operand pairs at width 8.",
+    "technique": "TLA+ reference of the Go specification's constant rules (exact BigInt / dyadic-rational arithmetic, representability, conversions, shifts) evaluated by TLC; TLC exports every depth-1 expression tree over a boundary literal set (plus seeded depth-2 trees) with the reference verdict, reference literal and Go source; the driver splices them into programs built and run by the real scriggo; a TLC Trace spec recomputes the reference and judges. The int64 fast path of constant.go is transcribed branch by branch and model-checked against the reference for all operand pairs at width 8 (thorough; width 6 in quick).",
     "level": "model_checking",
-    "level_text": "Reference: Const.tla part I (Go spec: untyped kinds and default types, untyped->typed conversion, representability with overflow/truncation, IEEE round-to-even for typed floats, integer vs rational division, shifts, comparison, concatenation, unary + - ^ !) on BigInt (spec/lib/BigInt.tla, itself model-checked against TLC's native integers by MC_BigInt). Implementation-shaped: int64Const.binaryOp/unaryOp overflow predicates at width 8, every operand pair, checked against the reference (MC_Const Mode=mc). Replay: all depth-1 trees (quick ~7.6k, thorough ~21k + 3000 seeded depth-2) -> `const c = <expr>` built by scriggo; accept/reject, `c == <reference literal>`, the printed integer and the default type are judged by TLC (Trace_Const).",
+    "level_text": "Reference: Const.tla part I (Go spec: untyped kinds and default types, untyped->typed conversion, representability with overflow/truncation, IEEE round-to-even for typed floats, integer vs rational division, shifts, comparison, concatenation, unary + - ^ !) on BigInt (spec/lib/BigInt.tla, itself model-checked against TLC's native integers by MC_BigInt). Implementation-shaped: int64Const.binaryOp/unaryOp overflow predicates at width 8 (quick: 6), every operand pair, one TLC action per branch, checked against the reference (MC_Const Mode=mc). Replay: all depth-1 trees of the grids (quick 4465, thorough 21142 + 3000 seeded depth-2 with their operands observed separately) -> `const c = <expr>` built by scriggo; accept/reject, `c == <reference literal>`, the printed integer and the default type are judged by TLC (Trace_Const).",
     "level_note": "Trusted: TLC, Json module, the Go driver (string templates + digit re-chunking, no arithmetic, no oracle on the passing path). go/types+go/constant are consulted only for records the Trace spec already rejected (oracle guard) - a record on which go/types agrees with scriggo is reported as oracle_disputed, not as a violation. Not decided (skipped, counted as ref_undefined): floats needing more than 256 mantissa bits, non-dyadic quotients' values (accept/reject still judged), shift counts >= 512 on zero / right shifts. Not covered: non-dyadic decimal literals (0.1) and their rounding, real/imag/complex builtins, iota, typed constants of named types, constants wider than depth 2.",
     "design_ref": "7/C02",
 }
@@ -43,6 +43,10 @@ PROPOSED_KNOWN = [
      "what": "complexConst.binaryOp implements == but not !=: 1i != 2i is rejected (operator != not defined on complex128)"},
     {"kind": "known", "signature": {"fam": "const", "fail": "rejects-valid", "root": "conv", "to": "uint", "xf64": 0},
      "what": "float64Const.representedBy(unsigned) tests float64(int64(f)) == f, which fails for 2^63 <= f < 2^64: uint64(9223372036854775808.0) is rejected as truncated"},
+    {"kind": "known", "signature": {"fam": "const", "fail": "rejects-valid", "ka": "u.float", "kb": "uint", "xf64": 0},
+     "what": "float64Const.representedBy(unsigned) rejects 2^63 <= f < 2^64 also when the untyped float operand is converted implicitly: 0x1p63 <= uint64(128) is rejected as truncated"},
+    {"kind": "known", "signature": {"fam": "const", "fail": "rejects-valid", "ka": "uint", "kb": "u.float", "xf64": 0},
+     "what": "float64Const.representedBy(unsigned) rejects 2^63 <= f < 2^64 also when the untyped float operand is converted implicitly: uint64(128) <= 0x1p63 is rejected as truncated"},
     {"kind": "known", "signature": {"fam": "const", "fail": "type", "fsh": 1},
      "what": "constant shift with an untyped float left operand yields an untyped float (Go: untyped int): 1.0 << 3 has default type float64, (1.0<<3)/16 == 0.5"},
     {"kind": "known", "signature": {"fam": "const", "fail": "value-unusable", "fsh": 1},
